@@ -1,4 +1,802 @@
-import Uds.Model.DecodeDtc
+import Uds.Lemmas.Safe
+/-
+  C04 — any received bytes give a result or a documented exception, never a crash / hang.
+  For every response interpreter and every client-side check: for *all* byte strings `d` the model either returns or
+  fails with a documented outcome (`PyErr.documented`): the `IndexError` / `struct.error` / … constructors are unreachable.
+  Termination ("never loops without consuming input") is Lean's termination check on every loop of Uds/Model/Decode*.lean
+  (well-founded recursion on the remaining bytes).
+-/
 namespace Uds.Props.C04
-theorem placeholder : True := trivial
+open Uds Uds.Model
+
+/-! ### the simple services -/
+
+theorem echo_safe (d : Bytes) : Safe (echoInterpret d) := by
+  unfold echoInterpret
+  refine Safe.bind (Safe.guard _ _ rfl) fun _ hg => ?_
+  have := guard_lt hg
+  exact Safe.bind (Safe.idx (by omega)) fun _ _ => Safe.pure _
+
+theorem ecuReset_safe (d : Bytes) : Safe (ecuResetInterpret d) := by
+  unfold ecuResetInterpret
+  refine Safe.bind (Safe.guard _ _ rfl) fun _ hg => ?_
+  have := guard_lt hg
+  refine Safe.bind (Safe.idx (by omega)) fun b _ => ?_
+  split
+  · refine Safe.bind (Safe.guard _ _ rfl) fun _ hg2 => ?_
+    have := guard_lt hg2
+    exact Safe.bind (Safe.idx (by omega)) fun _ _ => Safe.pure _
+  · exact Safe.pure _
+
+theorem sa_safe (mode : SaMode) (d : Bytes) : Safe (saInterpret mode d) := by
+  unfold saInterpret
+  refine Safe.bind (Safe.guard _ _ rfl) fun _ hg => ?_
+  have := guard_lt hg
+  have h1 : 0 < d.length := by split at this <;> omega
+  exact Safe.bind (Safe.idx h1) fun _ _ => Safe.pure _
+
+theorem accessTiming_safe (d : Bytes) : Safe (accessTimingInterpret d) := by
+  unfold accessTimingInterpret
+  refine Safe.bind (Safe.guard _ _ rfl) fun _ hg => ?_
+  have := guard_lt hg
+  exact Safe.bind (Safe.idx (by omega)) fun _ _ => Safe.pure _
+
+theorem slice_length (d : Bytes) (a b : Nat) (h : b ≤ d.length) : (slice d a b).length = b - a := by
+  simp [slice]; omega
+
+theorem routine_safe (d : Bytes) : Safe (routineInterpret d) := by
+  unfold routineInterpret
+  refine Safe.bind (Safe.guard _ _ rfl) fun _ hg => ?_
+  have := guard_lt hg
+  refine Safe.bind (Safe.idx (by omega)) fun _ _ => ?_
+  exact Safe.bind (Safe.unpackBE (by rw [slice_length _ _ _ (by omega)])) fun _ _ => Safe.pure _
+
+theorem transferData_safe (d : Bytes) : Safe (transferDataInterpret d) := by
+  unfold transferDataInterpret
+  refine Safe.bind (Safe.guard _ _ rfl) fun _ hg => ?_
+  have := guard_lt hg
+  exact Safe.bind (Safe.idx (by omega)) fun _ _ => Safe.pure _
+
+theorem dsc_safe (std : Nat) (d : Bytes) : Safe (dscInterpret std d) := by
+  unfold dscInterpret echo1
+  refine Safe.bind ?_ fun _ _ => ?_
+  · split
+    · exact Safe.throw _ rfl
+    · exact Safe.bind (Safe.idx (by omega)) fun _ _ => Safe.pure _
+  · simp only
+    split
+    · split
+      · exact Safe.throw _ rfl
+      · exact Safe.pure _
+    · exact Safe.pure _
+
+theorem normalizeLevel_safe (m : SaMode) (l : Int) (h : 1 ≤ l ∧ l ≤ 0x7E) : ∃ n, normalizeLevel m l = .ok n := by
+  unfold normalizeLevel
+  rw [validateInt_ok (u := ()) |>.2 h]
+  cases m <;> exact ⟨_, rfl⟩
+
+/-- every simple entry point, for in-domain arguments (`make_request` succeeded, so the level is 1..0x7E) -/
+theorem simpleClient_safe (std : Nat) (e : Entry) (d : Bytes)
+    (hlevel : ∀ l x, (e = .requestSeed l x ∨ e = .sendKey l x) → 1 ≤ l ∧ l ≤ 0x7E) : Safe (simpleClient std e d) := by
+  cases e <;> simp only [simpleClient]
+  case changeSession n =>
+    exact Safe.bind (dsc_safe std d) fun _ _ => Safe.bind (Safe.guard _ _ rfl) fun _ _ => Safe.pure _
+  case ecuReset t =>
+    refine Safe.bind (ecuReset_safe d) fun r _ => ?_
+    cases r <;> first | exact Safe.pure _ | exact Safe.bind (Safe.guard _ _ rfl) fun _ _ => Safe.pure _
+  case requestSeed l x =>
+    obtain ⟨n, hn⟩ := normalizeLevel_safe .requestSeed l (hlevel l x (Or.inl rfl))
+    refine Safe.bind (sa_safe _ d) fun r _ => ?_
+    rw [hn]
+    refine Safe.bind (Safe.ok _) fun _ _ => ?_
+    cases r <;> first | exact Safe.pure _ | exact Safe.bind (Safe.guard _ _ rfl) fun _ _ => Safe.pure _
+  case sendKey l x =>
+    obtain ⟨n, hn⟩ := normalizeLevel_safe .sendKey l (hlevel l x (Or.inr rfl))
+    refine Safe.bind (sa_safe _ d) fun r _ => ?_
+    rw [hn]
+    refine Safe.bind (Safe.ok _) fun _ _ => ?_
+    cases r <;> first | exact Safe.pure _ | exact Safe.bind (Safe.guard _ _ rfl) fun _ _ => Safe.pure _
+  case testerPresent =>
+    refine Safe.bind (echo_safe d) fun r _ => ?_
+    cases r <;> first | exact Safe.pure _ | exact Safe.bind (Safe.guard _ _ rfl) fun _ _ => Safe.pure _
+  case commControl a b c =>
+    refine Safe.bind (echo_safe d) fun r _ => ?_
+    cases r <;> first | exact Safe.pure _ | exact Safe.bind (Safe.guard _ _ rfl) fun _ _ => Safe.pure _
+  case controlDtc a b =>
+    refine Safe.bind (echo_safe d) fun r _ => ?_
+    cases r <;> first | exact Safe.pure _ | exact Safe.bind (Safe.guard _ _ rfl) fun _ _ => Safe.pure _
+  case linkControl a b =>
+    refine Safe.bind (echo_safe d) fun r _ => ?_
+    cases r <;> first | exact Safe.pure _ | exact Safe.bind (Safe.guard _ _ rfl) fun _ _ => Safe.pure _
+  case accessTiming a b =>
+    refine Safe.bind (accessTiming_safe d) fun r _ => ?_
+    cases r <;> first | exact Safe.pure _ | exact Safe.bind (Safe.guard _ _ rfl) fun _ _ => Safe.pure _
+  case routineControl a b c =>
+    refine Safe.bind (routine_safe d) fun r _ => ?_
+    cases r <;> first
+      | exact Safe.pure _
+      | exact Safe.bind (Safe.guard _ _ rfl) fun _ _ => Safe.bind (Safe.guard _ _ rfl) fun _ _ => Safe.pure _
+  case transferData a b =>
+    refine Safe.bind (transferData_safe d) fun r _ => ?_
+    cases r <;> first | exact Safe.pure _ | exact Safe.bind (Safe.guard _ _ rfl) fun _ _ => Safe.pure _
+  case transferExit a => exact Safe.pure _
+  case clearDtc a b => exact Safe.pure _
+
+/-! ### ReadDataByIdentifier -/
+
+theorem fetchCodec_safe (c : DidCfg) (did : Nat) : Safe (fetchCodec c did) := by
+  unfold fetchCodec; cases c.find did
+  · exact Safe.throw _ rfl
+  · exact Safe.pure _
+
+theorem checkDidConfig_safe (c : Option DidCfg) (ds : List Nat) : Safe (checkDidConfig c ds) := by
+  unfold checkDidConfig
+  cases c with
+  | none => exact Safe.throw _ rfl
+  | some c => simp only; split
+              · exact Safe.pure _
+              · exact Safe.throw _ rfl
+
+theorem rdbiLoop_safe (cfg : DidCfg) (tol : Bool) (rest : Bytes) (acc : List (Nat × Bytes)) : Safe (rdbiLoop cfg tol rest acc) := by
+  induction h : rest.length using Nat.strongRecOn generalizing rest acc with
+  | _ n ih =>
+    rw [rdbiLoop]
+    split
+    · exact Safe.pure _
+    · split
+      · refine Safe.bind (Safe.idx (by omega)) fun _ _ => ?_
+        split
+        · exact Safe.pure _
+        · exact Safe.throw _ rfl
+      · refine Safe.bind (Safe.unpackBE (by simp; omega)) fun did _ => ?_
+        split
+        · exact Safe.pure _
+        · refine Safe.bind (fetchCodec_safe _ _) fun len _ => ?_
+          cases len <;> simp only <;> split
+          · exact Safe.throw _ rfl
+          · exact ih _ (by subst h; simp; omega) _ _ rfl
+          · exact Safe.throw _ rfl
+          · exact ih _ (by subst h; simp; omega) _ _ rfl
+
+theorem rdbiInterpret_safe (cfg : DidCfg) (tol : Bool) (dids : List Nat) (d : Bytes) : Safe (rdbiInterpret cfg tol dids d) := by
+  unfold rdbiInterpret
+  exact Safe.bind (checkDidConfig_safe _ _) fun _ _ => Safe.bind (rdbiLoop_safe _ _ _ _) fun _ _ => Safe.pure _
+
+theorem rdbiClient_safe (cfg : DidCfg) (tol : Bool) (dids : List Nat) (d : Bytes) : Safe (rdbiClient cfg tol dids d) := by
+  unfold rdbiClient
+  have hs := rdbiInterpret_safe cfg tol dids d
+  split
+  · split
+    · exact Safe.throw _ rfl
+    · exact Safe.throw _ rfl
+  · rename_i e _ he
+    exact Safe.throw _ (hs e he)
+  · split
+    · exact Safe.throw _ rfl
+    · split
+      · exact Safe.throw _ rfl
+      · exact Safe.pure _
+  · exact Safe.pure _
+
+/-! ### WriteDataByIdentifier, DynamicallyDefineDataIdentifier, ReadMemoryByAddress, RequestDownload / Upload -/
+
+theorem wdbiClient_safe (did : Nat) (d : Bytes) : Safe (wdbiClient did d) := by
+  unfold wdbiClient wdbiInterpret
+  refine Safe.bind (Safe.bind (Safe.guard _ _ rfl) fun _ hg => ?_) fun r _ => ?_
+  · have := guard_lt hg
+    exact Safe.bind (Safe.unpackBE (by simp; omega)) fun _ _ => Safe.pure _
+  · cases r <;> first
+      | exact Safe.pure _
+      | (simp only; split
+         · exact Safe.throw _ rfl
+         · exact Safe.pure _)
+
+theorem dddInterpret_safe (d : Bytes) : Safe (dddInterpret d) := by
+  unfold dddInterpret
+  refine Safe.bind (Safe.guard _ _ rfl) fun _ hg => ?_
+  have := guard_lt hg
+  refine Safe.bind (Safe.idx (by omega)) fun sf _ => ?_
+  refine Safe.bind (Safe.guard _ _ rfl) fun _ _ => ?_
+  split
+  · exact Safe.bind (Safe.unpackBE (by rw [slice_length _ _ _ (by omega)])) fun _ _ => Safe.pure _
+  · exact Safe.pure _
+
+theorem dddClient_safe (sf : Nat) (did : Option Nat) (strict : Bool) (d : Bytes) : Safe (dddClient sf did strict d) := by
+  unfold dddClient
+  refine Safe.bind (dddInterpret_safe d) fun r _ => ?_
+  cases r <;> first
+    | exact Safe.pure _
+    | (simp only
+       split
+       · exact Safe.throw _ rfl
+       · split
+         · exact Safe.pure _
+         · split
+           · split
+             · exact Safe.throw _ rfl
+             · exact Safe.pure _
+           · split
+             · exact Safe.throw _ rfl
+             · exact Safe.pure _)
+
+theorem readMemClient_safe (size : Nat) (tol : Bool) (d : Bytes) : Safe (readMemClient size tol d) := by
+  unfold readMemClient readMemInterpret
+  refine Safe.bind (Safe.bind (Safe.guard _ _ rfl) fun _ _ => Safe.pure _) fun _ _ => ?_
+  split
+  · exact Safe.throw _ rfl
+  · split
+    · split
+      · exact Safe.pure _
+      · exact Safe.throw _ rfl
+    · exact Safe.pure _
+
+theorem readUIntAt_safe (d : Bytes) (off n : Nat) (h : off + n ≤ d.length) : Safe (readUIntAt d off n) := by
+  unfold readUIntAt; simp [h]; exact Safe.pure _
+
+theorem xfer_safe (d : Bytes) : Safe (xferInterpret d) := by
+  unfold xferInterpret
+  refine Safe.bind (Safe.guard _ _ rfl) fun _ hg => ?_
+  have := guard_lt hg
+  refine Safe.bind (Safe.idx (by omega)) fun b _ => ?_
+  refine Safe.bind (Safe.guard _ _ rfl) fun _ _ => ?_
+  refine Safe.bind (Safe.guard _ _ rfl) fun _ hg2 => ?_
+  have := guard_lt hg2
+  exact Safe.bind (readUIntAt_safe _ _ _ (by omega)) fun _ _ => Safe.pure _
+
+/-! ### InputOutputControlByIdentifier -/
+
+/-- the IO configuration is usable: every entry (and the default) passes `check_io_config_composite_entry` -/
+def ioCfgValid (cfg : IoCfg) : Prop := ∀ did e, cfg.find did = some e → checkIoEntry e = .ok ()
+
+theorem fetchIoEntry_safe (cfg : IoCfg) (did : Nat) (hv : ioCfgValid cfg) : Safe (fetchIoEntry cfg did) := by
+  unfold fetchIoEntry
+  cases hf : cfg.find did with
+  | none => exact Safe.throw _ rfl
+  | some e => simp only; rw [hv did e hf]; exact Safe.bind (Safe.ok _) fun _ _ => Safe.pure _
+
+theorem ioCpEcho_safe (cp : Option Nat) (d : Bytes) (h : (if cp.isSome then 3 else 2) ≤ d.length) : Safe (ioCpEcho cp d) := by
+  unfold ioCpEcho
+  cases cp with
+  | none => exact Safe.pure _
+  | some c =>
+    simp at h
+    exact Safe.bind (Safe.guard _ _ rfl) fun _ _ => Safe.bind (Safe.idx (by omega)) fun _ _ => Safe.pure _
+
+theorem ioDecode_safe (e : IoEntry) (tol : Bool) (did : Nat) (cpEcho : Option Nat) (r : Bytes) : Safe (ioDecode e tol did cpEcho r) := by
+  unfold ioDecode
+  cases e.codecLen with
+  | none => exact Safe.pure _
+  | some n => exact Safe.ite (fun _ => Safe.pure _) (fun _ => Safe.throw _ rfl)
+
+theorem ioInterpret_safe (cfg : IoCfg) (cp : Option Nat) (tol : Bool) (d : Bytes) (hv : ioCfgValid cfg) : Safe (ioInterpret cfg cp tol d) := by
+  unfold ioInterpret
+  refine Safe.bind (Safe.guard _ _ rfl) fun _ hg => ?_
+  have hlen := guard_lt hg
+  refine Safe.bind (Safe.unpackBE (by simp; split at hlen <;> omega)) fun did _ => ?_
+  refine Safe.bind (fetchIoEntry_safe cfg did hv) fun e _ => ?_
+  exact Safe.bind (ioCpEcho_safe cp d hlen) fun p _ => ioDecode_safe _ _ _ _ _
+
+theorem ioClient_safe (cfg : IoCfg) (did : Nat) (cp : Option Nat) (tol : Bool) (d : Bytes) (hv : ioCfgValid cfg) : Safe (ioClient cfg did cp tol d) := by
+  unfold ioClient
+  refine Safe.bind (ioInterpret_safe cfg cp tol d hv) fun r _ => ?_
+  cases r <;> first
+    | exact Safe.pure _
+    | (simp only
+       split
+       · exact Safe.throw _ rfl
+       · split
+         · exact Safe.throw _ rfl
+         · exact Safe.pure _)
+
+/-! ### Authentication -/
+
+theorem extractLen16_safe (rest : Bytes) : Safe (extractLen16 rest) := by
+  unfold extractLen16
+  split
+  · exact Safe.throw _ rfl
+  · refine Safe.bind (Safe.unpackBE (by simp; omega)) fun n _ => ?_
+    split
+    · exact Safe.pure _
+    · exact Safe.throw _ rfl
+
+theorem extractFields_safe (names : List String) (rest : Bytes) : Safe (extractFields names rest) := by
+  induction names generalizing rest with
+  | nil => exact Safe.pure _
+  | cons n ns ih =>
+    unfold extractFields
+    exact Safe.bind (extractLen16_safe rest) fun p _ => Safe.bind (ih p.2) fun q _ => Safe.pure _
+
+theorem authFields_safe (t : Nat) (rest : Bytes) : Safe (authFields t rest) := by
+  unfold authFields
+  split
+  · exact Safe.pure _
+  · split
+    · exact extractFields_safe _ _
+    · split
+      · exact extractFields_safe _ _
+      · split
+        · exact extractFields_safe _ _
+        · split
+          · exact Safe.bind (Safe.guard _ _ rfl) fun _ _ => Safe.bind (extractFields_safe _ _) fun _ _ => Safe.pure _
+          · exact Safe.throw _ rfl
+
+theorem authInterpret_safe (d : Bytes) : Safe (authInterpret d) := by
+  unfold authInterpret
+  refine Safe.bind (Safe.guard _ _ rfl) fun _ hg => ?_
+  have := guard_lt hg
+  refine Safe.bind (Safe.idx (by omega)) fun sf _ => ?_
+  refine Safe.bind (Safe.idx (by omega)) fun rv _ => ?_
+  exact Safe.bind (authFields_safe _ _) fun p _ => Safe.bind (Safe.guard _ _ rfl) fun _ _ => Safe.pure _
+
+theorem authClient_safe (task : Nat) (d : Bytes) : Safe (authClient task d) := by
+  unfold authClient
+  refine Safe.bind (authInterpret_safe d) fun r _ => ?_
+  cases r <;> first
+    | exact Safe.pure _
+    | (simp only
+       split
+       · exact Safe.throw _ rfl
+       · exact Safe.pure _)
+
+/-! ### RequestFileTransfer -/
+
+theorem rftMaxLen_safe (moop : Nat) (d : Bytes) : Safe (rftMaxLen moop d) := by
+  unfold rftMaxLen
+  split
+  · refine Safe.bind (Safe.guard _ _ rfl) fun _ hg => ?_
+    have := guard_lt hg
+    refine Safe.bind (Safe.idx (by omega)) fun l _ => ?_
+    refine Safe.bind (Safe.guard _ _ rfl) fun _ _ => Safe.bind (Safe.guard _ _ rfl) fun _ _ => Safe.bind (Safe.guard _ _ rfl) fun _ hg2 => ?_
+    have := guard_lt hg2
+    exact Safe.bind (readUIntAt_safe _ _ _ (by omega)) fun _ _ => Safe.pure _
+  · exact Safe.pure _
+
+theorem rftDfiEcho_safe (moop : Nat) (d : Bytes) (c1 : Nat) : Safe (rftDfiEcho moop d c1) := by
+  unfold rftDfiEcho
+  split
+  · refine Safe.bind (Safe.guard _ _ rfl) fun _ hg => ?_
+    have := guard_lt hg
+    exact Safe.bind (Safe.idx (by omega)) fun b _ => Safe.bind (Safe.guard _ _ rfl) fun _ _ => Safe.pure _
+  · exact Safe.pure _
+
+theorem rftSizes_safe (moop : Nat) (d : Bytes) (c2 : Nat) : Safe (rftSizes moop d c2) := by
+  unfold rftSizes
+  split
+  · refine Safe.bind (Safe.guard _ _ rfl) fun _ hg => ?_
+    have := guard_lt hg
+    refine Safe.bind (Safe.unpackBE (by simp; omega)) fun n _ => ?_
+    refine Safe.bind (Safe.guard _ _ rfl) fun _ _ => Safe.bind (Safe.guard _ _ rfl) fun _ _ => Safe.bind (Safe.guard _ _ rfl) fun _ hg2 => ?_
+    have := guard_lt hg2
+    refine Safe.bind (readUIntAt_safe _ _ _ (by omega)) fun u _ => ?_
+    split
+    · refine Safe.bind (Safe.guard _ _ rfl) fun _ hg3 => ?_
+      have := guard_lt hg3
+      exact Safe.bind (readUIntAt_safe _ _ _ (by omega)) fun _ _ => Safe.pure _
+    · exact Safe.pure _
+  · exact Safe.pure _
+
+theorem rftFilePos_safe (moop : Nat) (d : Bytes) (c3 : Nat) : Safe (rftFilePos moop d c3) := by
+  unfold rftFilePos
+  split
+  · refine Safe.bind (Safe.guard _ _ rfl) fun _ hg => ?_
+    have := guard_lt hg
+    exact Safe.bind (readUIntAt_safe _ _ _ (by omega)) fun _ _ => Safe.pure _
+  · exact Safe.pure _
+
+theorem rftInterpret_safe (tol : Bool) (d : Bytes) : Safe (rftInterpret tol d) := by
+  unfold rftInterpret
+  refine Safe.bind (Safe.guard _ _ rfl) fun _ hg => ?_
+  have := guard_lt hg
+  refine Safe.bind (Safe.idx (by omega)) fun m _ => ?_
+  exact Safe.bind (rftMaxLen_safe _ _) fun _ _ => Safe.bind (rftDfiEcho_safe _ _ _) fun _ _ => Safe.bind (rftSizes_safe _ _ _) fun _ _ =>
+    Safe.bind (rftFilePos_safe _ _ _) fun _ _ => Safe.bind (Safe.guard _ _ rfl) fun _ _ => Safe.pure _
+
+theorem rftClient_safe (moop : Nat) (dfiSent : Option Nat) (tol : Bool) (d : Bytes) : Safe (rftClient moop dfiSent tol d) := by
+  unfold rftClient
+  have hs := rftInterpret_safe tol d
+  split
+  · split
+    · split
+      · exact Safe.throw _ rfl
+      · exact Safe.throw _ rfl
+    · exact Safe.throw _ rfl
+  · rename_i e _ he
+    exact Safe.throw _ (hs e he)
+  · split
+    · exact Safe.throw _ rfl
+    · split
+      · split
+        · exact Safe.throw _ rfl
+        · exact Safe.pure _
+      · exact Safe.pure _
+  · exact Safe.pure _
+
+/-! ### ReadDTCInformation -/
+
+theorem take_len {bs : Bytes} {n : Nat} (h : n ≤ bs.length) : (bs.take n).length = n := by simp; omega
+
+theorem mkRec4_safe (r : Bytes) (h : r.length = 4) : Safe (mkRec4 r) := by
+  unfold mkRec4; exact Safe.bind (Safe.idx (by omega)) fun _ _ => Safe.pure _
+
+theorem mkRec6_safe (r : Bytes) (h : r.length = 6) : Safe (mkRec6 r) := by
+  unfold mkRec6
+  exact Safe.bind (Safe.idx (by omega)) fun _ _ => Safe.bind (Safe.idx (by omega)) fun _ _ => Safe.bind (Safe.idx (by omega)) fun _ _ => Safe.pure _
+
+theorem mkRec_safe (six : Bool) (r : Bytes) (h : r.length = (if six then 6 else 4)) : Safe (mkRec six r) := by
+  unfold mkRec
+  cases six
+  · exact mkRec4_safe _ (by simpa using h)
+  · exact mkRec6_safe _ (by simpa using h)
+
+theorem optByte_safe (cond : Bool) (d : Bytes) (i : Nat) (h : cond = true → i < d.length) : Safe (optByte cond d i) := by
+  unfold optByte
+  cases cond
+  · exact Safe.pure _
+  · exact Safe.bind (Safe.idx (h rfl)) fun _ _ => Safe.pure _
+
+theorem recordLoop_safe (tol ign six sf09 first : Bool) (rest : Bytes) (acc : List DtcRec) : Safe (recordLoop tol ign six sf09 first rest acc) := by
+  induction h : rest.length using Nat.strongRecOn generalizing rest acc first with
+  | _ n ih =>
+    rw [recordLoop]
+    simp only
+    refine Safe.dite (fun _ => Safe.pure _) fun h0 => Safe.dite (fun _ => ?_) fun h1 => ?_
+    · exact Safe.ite (fun _ => Safe.pure _) fun _ => Safe.ite (fun _ => Safe.throw _ rfl) fun _ => Safe.pure _
+    · have hpos : 0 < (if six = true then 6 else 4) := by split <;> omega
+      have hsz : (if six = true then 6 else 4) ≤ rest.length := by omega
+      refine Safe.ite (fun _ => ih _ (by subst h; simp; omega) _ _ _ rfl) fun _ => ?_
+      exact Safe.bind (mkRec_safe _ _ (take_len hsz)) fun x _ => ih _ (by subst h; simp; omega) _ _ _ rfl
+
+theorem recordsInterpret_safe (c : DtcCfg) (sf : Nat) (six : Bool) (d : Bytes) (hd : 1 ≤ d.length) : Safe (recordsInterpret c sf six d) := by
+  unfold recordsInterpret
+  refine Safe.bind (Safe.idx (by omega)) fun e _ => ?_
+  refine Safe.bind (Safe.guard _ _ rfl) fun _ hg => ?_
+  have hl := guard_lt hg
+  refine Safe.bind (optByte_safe _ _ _ (fun hms => by simp only [hms, if_true] at hl; omega)) fun ms _ => ?_
+  refine Safe.bind (Safe.idx (by split at hl <;> simp_all <;> omega)) fun av _ => ?_
+  exact Safe.bind (recordLoop_safe _ _ _ _ _ _ _) fun _ _ => Safe.pure _
+
+theorem g3Loop_safe (tol ign ident : Bool) (rest : Bytes) (acc : List DtcRec) : Safe (g3Loop tol ign ident rest acc) := by
+  induction h : rest.length using Nat.strongRecOn generalizing rest acc with
+  | _ n ih =>
+    rw [g3Loop]
+    split
+    · exact Safe.pure _
+    · split
+      · split
+        · exact Safe.pure _
+        · exact Safe.throw _ rfl
+      · simp only
+        split
+        · exact ih _ (by subst h; simp; omega) _ _ rfl
+        · refine Safe.bind (Safe.idx (by rw [take_len (by omega)]; omega)) fun x _ => ?_
+          split
+          · exact ih _ (by subst h; simp; omega) _ _ rfl
+          · exact ih _ (by subst h; simp; omega) _ _ rfl
+
+theorem g3Interpret_safe (c : DtcCfg) (ident : Bool) (d : Bytes) (hd : 1 ≤ d.length) : Safe (g3Interpret c ident d) := by
+  unfold g3Interpret
+  exact Safe.bind (Safe.idx (by omega)) fun _ _ => Safe.bind (g3Loop_safe _ _ _ _ _) fun _ _ => Safe.pure _
+
+theorem countInterpret_safe (d : Bytes) (hd : 1 ≤ d.length) : Safe (countInterpret d) := by
+  unfold countInterpret
+  refine Safe.bind (Safe.idx (by omega)) fun _ _ => Safe.bind (Safe.guard _ _ rfl) fun _ hg => ?_
+  have := guard_lt hg
+  exact Safe.bind (Safe.idx (by omega)) fun _ _ => Safe.bind (Safe.idx (by omega)) fun _ _ =>
+    Safe.bind (Safe.unpackBE (by rw [slice_length _ _ _ (by omega)])) fun _ _ => Safe.pure _
+
+theorem snapDids_safe (cfg : Option DidCfg) (k rec n : Nat) (rest : Bytes) (acc : List Snap) : Safe (snapDids cfg k rec n rest acc) := by
+  induction n generalizing rest acc with
+  | zero => exact Safe.pure _
+  | succ n ih =>
+    unfold snapDids
+    refine Safe.bind (Safe.guard _ _ rfl) fun _ _ => ?_
+    refine Safe.bind (checkDidConfig_safe _ _) fun c _ => Safe.bind (fetchCodec_safe _ _) fun len _ => ?_
+    cases len with
+    | none => exact Safe.throw _ rfl
+    | some l =>
+      simp only
+      split
+      · exact Safe.throw _ rfl
+      · exact ih _ _
+
+/-- the cursor always advances: each DID consumes at least its `k ≥ 1` identifier bytes -/
+theorem snapDids_shrinks (cfg : Option DidCfg) (k rec n : Nat) (rest : Bytes) (acc acc' : List Snap) (rest' : Bytes) (hk : 1 ≤ k) (hn : 1 ≤ n)
+    (h : snapDids cfg k rec n rest acc = .ok (acc', rest')) : rest'.length < rest.length := by
+  induction n generalizing rest acc with
+  | zero => omega
+  | succ n ih =>
+    unfold snapDids at h
+    simp only [bind_ok] at h
+    obtain ⟨_, hg, c, _, len, _, h2⟩ := h
+    have hlen := guard_lt hg
+    cases len with
+    | none => simp at h2
+    | some l =>
+      simp only at h2
+      split at h2
+      · simp at h2
+      · cases n with
+        | zero =>
+          unfold snapDids at h2
+          simp only [pure_ok, Prod.mk.injEq] at h2
+          rw [← h2.2]; simp; omega
+        | succ m =>
+          have := ih _ _ (by omega) h2
+          simp at this; omega
+
+theorem snapByDtcLoop_safe (c : DtcCfg) (hk : 1 ≤ c.didSize) (rest : Bytes) (acc : List Snap) : Safe (snapByDtcLoop c rest acc) := by
+  induction h : rest.length using Nat.strongRecOn generalizing rest acc with
+  | _ n ih =>
+    rw [snapByDtcLoop]
+    split
+    · exact Safe.pure _
+    · split
+      · exact Safe.pure _
+      · split
+        · exact Safe.throw _ rfl
+        · refine Safe.bind (Safe.idx (by omega)) fun rec _ => Safe.bind (Safe.idx (by omega)) fun nd _ => ?_
+          split
+          · exact Safe.throw _ rfl
+          · split
+            · exact Safe.throw _ rfl
+            · rename_i hn0 _
+              refine Safe.bind (snapDids_safe _ _ _ _ _ _) fun p hp => ?_
+              obtain ⟨acc', rest'⟩ := p
+              have hsh := snapDids_shrinks _ _ _ _ _ _ _ _ hk (by
+                have : nd.toNat ≠ 0 := by simpa using hn0
+                omega) hp
+              simp only
+              have : rest'.length < rest.length := by simp at hsh; omega
+              simp only [this, if_true]
+              exact ih _ (by omega) _ _ rfl
+
+theorem didSize_guard (c : DtcCfg) (hk : 1 ≤ c.didSize ∧ c.didSize ≤ 8) :
+    guardPy (decide (c.didSize < 1 || c.didSize > 8)) PyErr.valueErr = .ok () := by
+  apply guardPy_ok.2
+  simp; omega
+
+theorem snapByDtcInterpret_safe (c : DtcCfg) (sf : Nat) (d : Bytes) (hd : 1 ≤ d.length) (hk : 1 ≤ c.didSize ∧ c.didSize ≤ 8) :
+    Safe (snapByDtcInterpret c sf d) := by
+  unfold snapByDtcInterpret
+  refine Safe.bind (Safe.idx (by omega)) fun e _ => Safe.bind (Safe.guard _ _ rfl) fun _ hg => ?_
+  have hl := guard_lt hg
+  refine Safe.bind (optByte_safe _ _ _ (fun hms => by simp only [hms, if_true] at hl; omega)) fun ms _ => ?_
+  refine Safe.bind (Safe.idx (by split at hl <;> simp_all <;> omega)) fun st _ => ?_
+  rw [didSize_guard c hk]
+  exact Safe.bind (Safe.ok _) fun _ _ => Safe.bind (snapByDtcLoop_safe c hk.1 _ _) fun _ _ => Safe.pure _
+
+theorem snapByRecordLoop_safe (c : DtcCfg) (hk : 1 ≤ c.didSize) (rest : Bytes) (acc : List DtcRec) : Safe (snapByRecordLoop c rest acc) := by
+  induction h : rest.length using Nat.strongRecOn generalizing rest acc with
+  | _ n ih =>
+    rw [snapByRecordLoop]
+    refine Safe.dite (fun _ => Safe.pure _) fun h0 => Safe.ite (fun _ => Safe.pure _) fun _ => Safe.ite (fun _ => Safe.pure _) fun _ => ?_
+    refine Safe.dite (fun _ => Safe.throw _ rfl) fun h1 => Safe.dite (fun _ => Safe.throw _ rfl) fun h2 => ?_
+    refine Safe.bind (Safe.idx (by omega)) fun rec _ => Safe.bind (Safe.idx (by omega)) fun st _ => Safe.bind (Safe.idx (by omega)) fun nd _ => ?_
+    simp only
+    refine Safe.ite (fun _ => Safe.throw _ rfl) fun hn0 => Safe.ite (fun _ => Safe.throw _ rfl) fun _ => Safe.ite (fun _ => Safe.pure _) fun _ => ?_
+    refine Safe.bind (snapDids_safe _ _ _ _ _ _) fun p hp => ?_
+    obtain ⟨snaps, rest'⟩ := p
+    have hsh := snapDids_shrinks _ _ _ _ _ _ _ _ hk (by
+      have : nd.toNat ≠ 0 := by simpa using hn0
+      omega) hp
+    simp only
+    have : rest'.length < rest.length := by simp at hsh; omega
+    simp only [this, if_true]
+    exact ih _ (by omega) _ _ rfl
+
+theorem snapByRecordInterpret_safe (c : DtcCfg) (d : Bytes) (hd : 1 ≤ d.length) (hk : 1 ≤ c.didSize ∧ c.didSize ≤ 8) :
+    Safe (snapByRecordInterpret c d) := by
+  unfold snapByRecordInterpret
+  refine Safe.bind (Safe.idx (by omega)) fun e _ => ?_
+  rw [didSize_guard c hk]
+  exact Safe.bind (Safe.ok _) fun _ _ => Safe.bind (Safe.guard _ _ rfl) fun _ _ => Safe.bind (snapByRecordLoop_safe c hk.1 _ _) fun _ _ => Safe.pure _
+
+/-- `extended_data_size` is given and valid (it is a client-side argument / configuration value) -/
+def extValid (e : ExtSize) : Prop := checkExtSize e = .ok ()
+
+theorem extSizeFor_safe (e : ExtSize) (dtc : Nat) (h : extValid e) : Safe (extSizeFor e dtc) := by
+  unfold extSizeFor
+  cases e with
+  | none => simp [extValid, checkExtSize] at h
+  | int n => exact Safe.pure _
+  | dict l =>
+    simp only
+    split
+    · exact Safe.pure _
+    · exact Safe.throw _ rfl
+
+theorem extByDtcLoop_safe (tol : Bool) (size : Nat) (rest : Bytes) (acc : List (Nat × Bytes)) : Safe (extByDtcLoop tol size rest acc) := by
+  induction h : rest.length using Nat.strongRecOn generalizing rest acc with
+  | _ n ih =>
+    rw [extByDtcLoop]
+    refine Safe.dite (fun _ => Safe.pure _) fun h0 => Safe.bind (Safe.idx (by omega)) fun rec _ => ?_
+    refine Safe.ite (fun _ => Safe.ite (fun _ => Safe.pure _) fun _ => Safe.throw _ rfl) fun _ => ?_
+    simp only
+    exact Safe.ite (fun _ => Safe.throw _ rfl) fun _ => ih _ (by subst h; simp; omega) _ _ rfl
+
+theorem extByDtcInterpret_safe (c : DtcCfg) (sf : Nat) (d : Bytes) (hd : 1 ≤ d.length) (he : extValid c.ext) : Safe (extByDtcInterpret c sf d) := by
+  unfold extByDtcInterpret
+  refine Safe.bind (Safe.idx (by omega)) fun e _ => ?_
+  rw [he]
+  refine Safe.bind (Safe.ok _) fun _ _ => Safe.bind (Safe.guard _ _ rfl) fun _ hg => ?_
+  have hl := guard_lt hg
+  refine Safe.bind (optByte_safe _ _ _ (fun hms => by simp only [hms, if_true] at hl; omega)) fun ms _ => ?_
+  refine Safe.bind (Safe.idx (by split at hl <;> simp_all <;> omega)) fun st _ => ?_
+  exact Safe.bind (extSizeFor_safe _ _ he) fun _ _ => Safe.bind (extByDtcLoop_safe _ _ _ _) fun _ _ => Safe.pure _
+
+theorem extByRecordLoop_safe (c : DtcCfg) (he : extValid c.ext) (rec : Nat) (rest : Bytes) (seen : List Nat) (acc : List DtcRec) :
+    Safe (extByRecordLoop c rec rest seen acc) := by
+  induction h : rest.length using Nat.strongRecOn generalizing rest seen acc with
+  | _ n ih =>
+    rw [extByRecordLoop]
+    refine Safe.dite (fun _ => Safe.pure _) fun h0 => ?_
+    simp only
+    refine Safe.ite (fun _ => Safe.ite (fun _ => Safe.pure _) fun _ => Safe.throw _ rfl) fun _ => ?_
+    refine Safe.dite (fun _ => Safe.throw _ rfl) fun h1 => Safe.ite (fun _ => Safe.throw _ rfl) fun _ => ?_
+    refine Safe.bind (Safe.idx (by omega)) fun st _ => Safe.bind (extSizeFor_safe _ _ he) fun size _ => ?_
+    exact Safe.ite (fun _ => Safe.throw _ rfl) fun _ => ih _ (by subst h; simp; omega) _ _ _ rfl
+
+theorem extByRecordInterpret_safe (c : DtcCfg) (d : Bytes) (hd : 1 ≤ d.length) (he : extValid c.ext) : Safe (extByRecordInterpret c d) := by
+  unfold extByRecordInterpret
+  refine Safe.bind (Safe.idx (by omega)) fun e _ => ?_
+  rw [he]
+  refine Safe.bind (Safe.ok _) fun _ _ => Safe.bind (Safe.guard _ _ rfl) fun _ hg => ?_
+  have := guard_lt hg
+  refine Safe.bind (Safe.idx (by omega)) fun rec _ => Safe.bind (Safe.guard _ _ rfl) fun _ _ => ?_
+  exact Safe.bind (extByRecordLoop_safe c he _ _ _ _) fun _ _ => Safe.pure _
+
+theorem wwhLoop_safe (tol ign : Bool) (rest : Bytes) (acc : List DtcRec) : Safe (wwhLoop tol ign rest acc) := by
+  induction h : rest.length using Nat.strongRecOn generalizing rest acc with
+  | _ n ih =>
+    rw [wwhLoop]
+    refine Safe.dite (fun _ => Safe.pure _) fun h0 => Safe.dite (fun _ => Safe.ite (fun _ => Safe.pure _) fun _ => Safe.throw _ rfl) fun h1 => ?_
+    simp only
+    refine Safe.ite (fun _ => ih _ (by subst h; simp; omega) _ _ rfl) fun _ => ?_
+    have hl : (rest.take 5).length = 5 := take_len (by omega)
+    exact Safe.bind (Safe.idx (by omega)) fun _ _ => Safe.bind (Safe.idx (by omega)) fun _ _ => ih _ (by subst h; simp; omega) _ _ rfl
+
+theorem wwhInterpret_safe (c : DtcCfg) (mask : Bool) (d : Bytes) (hd : 1 ≤ d.length) : Safe (wwhInterpret c mask d) := by
+  unfold wwhInterpret
+  refine Safe.bind (Safe.idx (by omega)) fun e _ => Safe.bind (Safe.guard _ _ rfl) fun _ hg => ?_
+  have hl := guard_lt hg
+  have h4 : 4 ≤ d.length := by split at hl <;> omega
+  refine Safe.bind (Safe.idx (by omega)) fun fg _ => Safe.bind (Safe.idx (by omega)) fun av _ => ?_
+  refine Safe.bind (optByte_safe _ _ _ (fun _ => by omega)) fun sevAv _ => ?_
+  refine Safe.bind (Safe.idx (by split at hl <;> split <;> simp_all <;> omega)) fun fmt _ => ?_
+  exact Safe.bind (Safe.guard _ _ rfl) fun _ _ => Safe.bind (Safe.guard _ _ rfl) fun _ _ => Safe.bind (wwhLoop_safe _ _ _ _) fun _ _ => Safe.pure _
+
+/-- the client configuration the interpreter reads is itself valid -/
+structure DtcCfgValid (c : DtcCfg) : Prop where
+  didSize : 1 ≤ c.didSize ∧ c.didSize ≤ 8
+  ext : extValid c.ext
+
+/-- **ReadDTCInformation.interpret_response**: for every sub-function `make_request` accepted (it runs the same
+    `check_subfunction_valid` before anything is sent) and every byte string -/
+theorem dtcInterpret_safe (c : DtcCfg) (sf : Int) (d : Bytes) (hv : DtcCfgValid c) (hsf : checkSubfunctionValid sf c.std = .ok ()) :
+    Safe (dtcInterpret c sf d) := by
+  unfold dtcInterpret
+  rw [hsf]
+  refine Safe.bind (Safe.ok _) fun _ _ => Safe.bind (Safe.guard _ _ rfl) fun _ hg => ?_
+  · have hd := guard_lt hg
+    split
+    · exact recordsInterpret_safe _ _ _ _ hd
+    · exact recordsInterpret_safe _ _ _ _ hd
+    · exact g3Interpret_safe _ _ _ hd
+    · exact g3Interpret_safe _ _ _ hd
+    · exact countInterpret_safe _ hd
+    · exact snapByDtcInterpret_safe _ _ _ hd hv.didSize
+    · exact snapByRecordInterpret_safe _ _ hd hv.didSize
+    · exact extByDtcInterpret_safe _ _ _ hd hv.ext
+    · exact extByRecordInterpret_safe _ _ hd hv.ext
+    · exact wwhInterpret_safe _ _ _ hd
+    · exact wwhInterpret_safe _ _ _ hd
+    · exact Safe.bind (Safe.idx (by omega)) fun _ _ => Safe.pure _
+
+/-- the request context carries what `make_request` demanded for the sub-function -/
+def ctxOk (q : DtcReqCtx) : Prop :=
+  let sf := q.sf.toNat
+  ((sf = 0x04 ∨ sf = 0x18) → q.dtc.isSome = true ∧ q.snapRec.isSome = true) ∧
+  (sf = 0x05 → q.snapRec.isSome = true) ∧
+  ((sf = 0x06 ∨ sf = 0x10 ∨ sf = 0x19) → q.extRec.isSome = true) ∧
+  ((sf = 0x42 ∨ sf = 0x55) → q.fgid.isSome = true)
+
+theorem dtcPost_safe (q : DtcReqCtx) (r : DtcData) (hq : ctxOk q) (hfg : (q.sf.toNat = 0x42 ∨ q.sf.toNat = 0x55) → r.fgid.isSome = true) :
+    Safe (dtcPost q r) := by
+  obtain ⟨h1, h2, h3, h4⟩ := hq
+  unfold dtcPost
+  refine Safe.bind ?_ fun _ _ => Safe.bind ?_ fun _ _ => Safe.bind ?_ fun _ _ => Safe.bind ?_ fun _ _ => Safe.bind ?_ fun _ _ => ?_
+  · unfold postSnapDtc
+    refine Safe.ite (fun hc => ?_) fun _ => Safe.pure _
+    have := (h1 (by simpa using hc)).1
+    cases hd : q.dtc with
+    | none => simp [hd] at this
+    | some w =>
+      split
+      · exact Safe.guard _ _ rfl
+      · rename_i heq; simp at heq
+      · exact Safe.pure _
+  · unfold postSnapRec
+    refine Safe.ite (fun hc => ?_) fun _ => Safe.pure _
+    have : q.snapRec.isSome = true := by
+      simp only [Bool.or_eq_true, beq_iff_eq] at hc
+      rcases hc with (hc | hc) | hc
+      · exact h2 hc
+      · exact (h1 (Or.inl hc)).2
+      · exact (h1 (Or.inr hc)).2
+    cases hs : q.snapRec with
+    | none => simp [hs] at this
+    | some w =>
+      simp only
+      split
+      · exact Safe.guard _ _ rfl
+      · exact Safe.pure _
+  · unfold postExtRec
+    refine Safe.ite (fun hc => ?_) fun _ => Safe.pure _
+    have : q.extRec.isSome = true := h3 (by simp only [Bool.or_eq_true, beq_iff_eq] at hc; omega)
+    cases hs : q.extRec with
+    | none => simp [hs] at this
+    | some w =>
+      simp only
+      split
+      · exact Safe.guard _ _ rfl
+      · exact Safe.pure _
+  · unfold postMemSel
+    refine Safe.ite (fun _ => ?_) fun _ => Safe.pure _
+    split
+    · exact Safe.guard _ _ rfl
+    · exact Safe.pure _
+  · unfold postExtByRecord
+    refine Safe.ite (fun _ => ?_) fun _ => Safe.pure _
+    split
+    · exact Safe.guard _ _ rfl
+    · exact Safe.pure _
+  · unfold postFgid
+    refine Safe.ite (fun hc => ?_) fun _ => Safe.pure _
+    have hc' : q.sf.toNat = 0x42 ∨ q.sf.toNat = 0x55 := by
+      simp only [Bool.or_eq_true, beq_iff_eq] at hc; omega
+    have a := hfg hc'
+    have b := h4 hc'
+    cases hr : r.fgid with
+    | none => simp [hr] at a
+    | some g =>
+      cases hq : q.fgid with
+      | none => simp [hq] at b
+      | some w => exact Safe.guard _ _ rfl
+
+theorem wwhInterpret_fgid (c : DtcCfg) (mask : Bool) (d : Bytes) (r : DtcData) (h : wwhInterpret c mask d = .ok r) : r.fgid.isSome = true := by
+  unfold wwhInterpret at h
+  simp only [bind_ok, pure_ok] at h
+  obtain ⟨_, _, _, _, _, _, _, _, _, _, _, _, _, _, _, _, _, _, rfl⟩ := h
+  rfl
+
+theorem dtcInterpret_fgid (c : DtcCfg) (sf : Int) (d : Bytes) (r : DtcData) (h : dtcInterpret c sf d = .ok r)
+    (hsf : sf.toNat = 0x42 ∨ sf.toNat = 0x55) : r.fgid.isSome = true := by
+  unfold dtcInterpret at h
+  simp only [bind_ok] at h
+  obtain ⟨_, _, _, _, h⟩ := h
+  rcases hsf with hsf | hsf <;> rw [hsf] at h
+  · have : dtcRespGroup 0x42 = .wwhMask := by decide
+    rw [this] at h; exact wwhInterpret_fgid _ _ _ _ h
+  · have : dtcRespGroup 0x55 = .wwhPerm := by decide
+    rw [this] at h; exact wwhInterpret_fgid _ _ _ _ h
+
+/-- **read_dtc_information** (and the 26 getters built on it): every reply ends in a result or a documented exception -/
+theorem dtcClient_safe (c : DtcCfg) (q : DtcReqCtx) (d : Bytes) (hv : DtcCfgValid c) (hsf : checkSubfunctionValid q.sf c.std = .ok ())
+    (hq : ctxOk q) : Safe (dtcClient c q d) := by
+  unfold dtcClient
+  have hs := dtcInterpret_safe c q.sf d hv hsf
+  split
+  · rename_i r hr
+    refine Safe.ite (fun _ => Safe.throw _ rfl) fun _ => ?_
+    exact Safe.bind (dtcPost_safe q r hq (dtcInterpret_fgid c q.sf d r hr)) fun _ _ => Safe.pure _
+  · rename_i e he
+    split
+    · exact Safe.ite (fun _ => Safe.throw _ rfl) fun _ => Safe.throw _ (hs e he)
+    · exact Safe.throw _ (hs e he)
+
+/-! ### non-vacuity: the hypotheses are satisfiable, and a truncated snapshot reply (the F7 input) is now an invalid response -/
+example : DtcCfgValid { ext := .int 2 } := ⟨by decide, by unfold extValid checkExtSize; rfl⟩
+example : ioClient { entries := [(0x1234, { codecLen := some 1 })] } 0x1234 none true [0x12] = .error .invalid := by decide
+example : ioClient { entries := [(0x1234, { codecLen := some 1 })] } 0x1234 (some 1) true [0x12, 0x34] = .error .invalid := by decide
+
 end Uds.Props.C04
